@@ -63,6 +63,34 @@ func deviations() []deviation {
 			}
 			return true
 		}},
+		// numbers are unbounded integers on the wire: values equal to parent+1 modulo 2^64 / 2^32
+		{"number+2^64", all3, func(h, p *types.WorkObject, c int) bool {
+			n := new(big.Int).Add(h.Number(c), new(big.Int).Lsh(big.NewInt(1), 64))
+			if c == sim.Zone {
+				h.WorkObjectHeader().SetNumber(n)
+			} else {
+				h.Header().SetNumber(n, c)
+			}
+			return true
+		}},
+		{"number+3*2^200", all3, func(h, p *types.WorkObject, c int) bool {
+			n := new(big.Int).Add(h.Number(c), new(big.Int).Lsh(big.NewInt(3), 200))
+			if c == sim.Zone {
+				h.WorkObjectHeader().SetNumber(n)
+			} else {
+				h.Header().SetNumber(n, c)
+			}
+			return true
+		}},
+		{"number+2^32", all3, func(h, p *types.WorkObject, c int) bool {
+			n := new(big.Int).Add(h.Number(c), new(big.Int).Lsh(big.NewInt(1), 32))
+			if c == sim.Zone {
+				h.WorkObjectHeader().SetNumber(n)
+			} else {
+				h.Header().SetNumber(n, c)
+			}
+			return true
+		}},
 		{"time<parent", all3, func(h, p *types.WorkObject, c int) bool {
 			if p.Time() == 0 {
 				return false
